@@ -34,6 +34,9 @@ RenderVerdict(ev) ==
        IN IF ev.osgn # ev.sgn THEN "sign"
           ELSE IF ev.oexp % 3 # 0 THEN "exp_not_multiple_of_3"
           ELSE IF ~(P10(ev.ndec) <= ev.digits /\ ev.digits <= 1000 * P10(ev.ndec)) THEN "mantissa_range"
+          \* the leading digits of the rendered number and of the value are at most one decimal place apart (9.99 -> "10.0"), else
+          \* the two differ by more than 0.9 * 10^E, which is more than half a unit of any significant digit
+          ELSE IF AbsI(NDig(ev.digits) - 1 + re - E) >= 2 THEN "magnitude"
           ELSE IF AbsI(re - ue) > 3 \/ re - x > 8 \/ ev.e10 - x > 8 \/ ue - x > 9 THEN "magnitude"
           ELSE IF 2 * AbsI(ev.digits * P10(re - x) - ev.m * P10(ev.e10 - x)) <= P10(ue - x) THEN "ok"
           ELSE "inaccurate"
